@@ -146,6 +146,13 @@ def apply_list(op, lst, i, j, donors, step):
         lst.extend(donors)
     elif op == 'clear':
         lst.clear()
+    elif op == 'drop_many':       # drop the items at two (possibly equal, possibly negative) indexes, as `del` would: all-or-nothing
+        n = len(lst)
+        for x in (i, j):
+            if not -n <= x < n:
+                raise IndexError('drop_many index out of range')
+        gone = {i % n, j % n}
+        lst = [v for k, v in enumerate(lst) if k not in gone]
     elif op == 'setslice_ext':
         lst[i:j:step] = donors
     elif op == 'delslice_ext':
@@ -180,6 +187,9 @@ def apply_real(op, w, i, j, donors, step):
         return w.extend(donors)
     if op == 'clear':
         return w.clear()
+    if op == 'drop_many':
+        w.drop_many([i, j])
+        return None
     if op == 'setslice_ext':
         w[i:j:step] = donors
         return None
@@ -189,8 +199,8 @@ def apply_real(op, w, i, j, donors, step):
     raise AssertionError(op)
 
 
-USES_I = ('insert', 'pop', 'setitem', 'delitem', 'setslice', 'delslice', 'setslice_ext', 'delslice_ext')
-USES_J = ('setslice', 'delslice', 'setslice_ext', 'delslice_ext')
+USES_I = ('insert', 'pop', 'setitem', 'delitem', 'setslice', 'delslice', 'setslice_ext', 'delslice_ext', 'drop_many')
+USES_J = ('setslice', 'delslice', 'setslice_ext', 'delslice_ext', 'drop_many')
 NEEDS_DONORS = {'insert': 1, 'append': 1, 'setitem': 1}
 REFUSALS = (IndexError, ValueError)
 
@@ -433,7 +443,7 @@ def _reg(name_fn, tiers, timeout, family, bounds, twin=False, cost=None):
 
 Q, T = ('quick', 'thorough'), ('thorough',)
 FACET_PROP = {'views': 'C10', 'window': 'C03', 'tree': 'C05', 'reparse': 'C06', 'refuse': 'C19'}
-SINGLE_OPS = ['insert', 'append', 'pop', 'pop_last', 'setitem', 'delitem', 'setslice', 'delslice', 'extend', 'clear']
+SINGLE_OPS = ['insert', 'append', 'pop', 'pop_last', 'setitem', 'delitem', 'setslice', 'delslice', 'extend', 'clear', 'drop_many']
 QUICK_SCAF = {'views': ['note_tags', 'txn_postings', 'txn_meta', 'open_cur'],
               'window': ['note_tags', 'open_cur', 'txn_postings', 'file_dirs'],
               'tree': ['txn_postings', 'txn_meta', 'note_tags', 'file_dirs'],
@@ -452,9 +462,13 @@ for _facet, _prop in FACET_PROP.items():
             for _op in SINGLE_OPS:
                 if _n == 0 and _op in ('pop', 'pop_last', 'setitem', 'delitem') and _facet not in ('refuse', 'views'):
                     continue
+                if _n == 0 and _op == 'drop_many' and _facet not in ('refuse', 'views'):
+                    continue
                 if _facet == 'refuse' and _op in ('append', 'clear', 'delslice', 'extend', 'insert', 'setslice'):
                     continue   # these never refuse with fresh donors (attached donors: separate cells below)
-                quick = _scaf in QUICK_SCAF[_facet] and _n in ((0, 3) if _op in ('setslice', 'delslice', 'insert') else (2,) if _op in ('setitem', 'pop', 'delitem') else (1,))
+                quick = _scaf in QUICK_SCAF[_facet] and _n in ((0, 3) if _op in ('setslice', 'delslice', 'insert') else (2,) if _op in ('setitem', 'pop', 'delitem') else (3,) if _op == 'drop_many' else (1,))
+                if _op == 'drop_many' and quick and _scaf not in QUICK_SCAF[_facet][:2]:
+                    quick = False
                 _reg(make_rep(_scaf, _n, _op, _facet), {_prop: Q if quick else T}, 900, 'rep/' + _facet, _bounds(_scaf, _n, _op),
                      cost=(2 * _n + 7) ** (2 if 'slice' in _op else 1) * (4 if _op in ('setslice', 'extend') else 1))
             for _step in (2, -1, -2, 3):
